@@ -35,6 +35,8 @@ CLAIMS = {
             "discipline, not safety: every write into a constant-size array has its own bound; only alloc.c touches libc's allocator; delete functions release every owning field"),
     "C15": ("determinism scan over all resolved calls/casts of tree-sitter-generate's MIR (expected zero + positive fixture); vet-before-advance monitor and gates on the state-merging licence", "§4 C15",
             "no iteration over RandomState-hashed containers or other process-dependent sources; states are merged only after every consumed entry was vetted; tree equality of optimised/unoptimised parsers is not decided"),
+    "C17": ("pairing rules in both directions (push↔HighlightStart, pop↔HighlightEnd), who-may-construct table for events, gates on Source emission, termination and HTML escaping (rustc MIR)", "§4 C17",
+            "events are emitted exactly where the end-position stack changes; raw bytes reach the HTML only when escape-free; ordering across layers and injection containment are not decided"),
     "C19": ("typestate monitor (lock held / dropped) and publish-after-success monitor over rustc MIR; who-may-call table for the compile functions; data-dependence of the compiler's output argument on temp_path", "§4 C19",
             "compile only under the lock, lock dropped on every exit, atomic publication via temp+rename after success, waiter re-checks freshness; interleavings and crash points themselves are not decided"),
     "C20": ("field-flow tracing of TestCorrection arguments, type-aware taint from the reader's delimiter tuple to the entry, path counting of recorded corrections with correlated pure conditions (rustc MIR)", "§4 C20",
